@@ -233,6 +233,18 @@ func genString(t *rapid.T) strCase {
 		case 2:
 			sb.WriteString(rapid.StringMatching(`[0-9]{1,9}`).Draw(t, "rnd"))
 		case 3:
+			if h.Pick(t, "huge", 6, 1) == 1 {
+				// hundreds or thousands of digits: a value far beyond 2^31 (rejected), or leading zeros in front
+				// of a small value (accepted); lengths around 256, 512, 65536 where a narrow counter wraps
+				n := h.OneOf(t, "hugelen", 255, 256, 257, 258, 266, 267, 511, 512, 513, 1000, 65535, 65536, 65537, 65546)
+				lead := h.OneOf(t, "hugelead", "1", "9", "0", "2147483647", "00")
+				fill := h.OneOf(t, "hugefill", "0", "0", "9", "1")
+				tail := h.OneOf(t, "hugetail", "", "7", "2147483647", "2147483648", "0000000001")
+				if n > len(lead)+len(tail) {
+					sb.WriteString(lead + strings.Repeat(fill, n-len(lead)-len(tail)) + tail)
+				}
+				break
+			}
 			sb.WriteString(rapid.StringMatching(`[0-9]{10,12}`).Draw(t, "rndlong"))
 		default:
 			sb.WriteString(h.OneOf(t, "baddigits", badDigitForms...))
@@ -254,7 +266,14 @@ func genString(t *rapid.T) strCase {
 		if len(s) > 0 {
 			pos = rapid.IntRange(0, len(s)).Draw(t, "pos")
 		}
-		switch h.Pick(t, "edit", 2, 2, 1) {
+		switch h.Pick(t, "edit", 4, 4, 2, 1) {
+		case 3: // a significant character replaced by a rune that equals it modulo 256 or modulo 65536
+			// (U+0134 for '4', U+016D for 'm', U+012F for '/', U+10030 for '0'): a scanner that narrows
+			// runes to bytes reads the original character
+			if pos < len(s) && s[pos] < 0x80 {
+				r := rune(s[pos]) + rune(h.OneOf(t, "runeoff", 0x100, 0x200, 0x1000, 0x10000, 0xff00))
+				s = s[:pos] + string(r) + s[pos+1:]
+			}
 		case 0: // insert
 			s = s[:pos] + h.OneOf(t, "ins", noise...) + s[pos:]
 		case 1: // delete
